@@ -39,6 +39,9 @@ Viol(r) ==
                           IF bad = {} THEN <<>> ELSE <<CHOOSE a \in bad : \A j \in bad : a <= j>>>>
       [] r.k = "unk" -> <<IF r.val = -1 THEN {} ELSE {"unknown_pair_not_none"}, <<>>>>
       [] r.k = "need" -> <<(IF r.known THEN NeededFail(r.t, r.sAt, r.sWorse) \cup (IF r.ongrid THEN {} ELSE {"needed_mark_off_grid"})
+                                           \* negative targets behave as zero: the very same mark comes back
+                                           \cup (IF "perf0" \in DOMAIN r /\ r.t < 0 /\ r.perf # r.perf0
+                                                 THEN {"negative_target_differs_from_zero_target"} ELSE {})
                             ELSE IF r.none THEN {} ELSE {"unknown_pair_not_none"}), <<>>>>
 \* model drift for the inverse: distance of the returned mark from the exact threshold (diagnostic)
 Drift(r) == IF r.k = "need" /\ r.known /\ r.ongrid /\ r.t <= Len(Thr[KeyIdx(r.g \o "-" \o r.e)])
